@@ -108,6 +108,8 @@ pub mod incremental;
 pub mod index_manager; // Index manager for vector similarity search
 pub mod ir;
 pub mod session; // Session manager for ephemeral triggers persistent
+#[cfg(feature = "verif-hooks")]
+pub mod verif_hooks; // Verification scheduler hooks (feature-gated)
 
 // Re-export types from internal modules
 pub use crate::ast::builders::{fact, simple_rule, AtomBuilder, RuleBuilder};
